@@ -36,7 +36,7 @@ def required(tier):
          'directio:on': 20, 'directio:off': 20, 'digitize:on': 30, 'digitize:off': 20, 'multi-file-input': 20, 'length:omitted': 10,
          'length:shorter': 10, 'length:longer': 10, 'aligned-header': 3, 'subblocks>=2': 40,
          'second-recording-flipped-digitize': 30, 'lazy-unit-noise-estimate': 40, 'input:blank-block-or-dead-polarisation': 8,
-         'block>10000-samples-per-stream': 15, 'window:hann': 30, 'window:blackman': 30, 'window:boxcar': 30}
+         'block>10000-samples-per-stream': 15, 'unused-digitiser-with-other-statistics-settings': 15, 'window:hann': 30, 'window:blackman': 30, 'window:boxcar': 30}
     return {'buckets': b, 'counters': {'decode_blocks_compared': 200, 'gain_calls_observed': 400, 'samples_compared': 50000},
             'checks': 1000, 'nontrivial': 60}
 
@@ -167,7 +167,14 @@ def _run(stg, c, cfg, d, R):
             s.add_constant_signal(f_start=cfg['fch1'] + (cfg['start_chan'] + cfg['nchan'] // 2 + c['tone_chan']) * chan_bw,
                                   drift_rate=0.0, level=c['tone_level'])
     with common.quiet():
-        rvb = v.RawVoltageBackend.from_data(stem_in, src, digitizer=v.RealQuantizer(),
+        # the digitiser handed over may be configured any way the caller likes; as long as it is not USED (digitize=False, and no
+        # second recording with the flag flipped) none of its settings has any business in the output
+        dig_ = v.RealQuantizer()
+        if not cfg['digitize'] and c['_idx'] % 3 != 0 and c['_idx'] % 2 == 1:
+            dig_ = v.RealQuantizer(stats_calc_period=int(common.pick(np.random.default_rng(c['sub']), [-1, 2, 3])),
+                                   stats_calc_num_samples=int(common.pick(np.random.default_rng(c['sub'] + 1), [10000, 64])))
+            R.bucket('unused-digitiser-with-other-statistics-settings')
+        rvb = v.RawVoltageBackend.from_data(stem_in, src, digitizer=dig_,
                                             filterbank=v.PolyphaseFilterbank(num_taps=cfg['M'], num_branches=cfg['P'], window_fn=cfg['window']),
                                             start_chan=cfg['start_chan'], num_subblocks=c['nsub_out'])
     R.check(rvb.block_size == sz['block_size'] and rvb.num_bits == cfg['bits'] and rvb.num_chans == cfg['nchan'] and
